@@ -118,10 +118,12 @@ def c02(tier, repo):
                        'every change; the eviction trigger is exactly size >= capacity), R-OBSERVERS (size/empty/capacity return the '
                        'counter / counter==0 / the size of storage that only the constructor sizes, with the capacity argument), '
                        'R-PURGE-FIRST / R-PURGE-SHAPE / ORD-WITNESS (ut_map/ut_set: complete purge before consulting the index), '
+                       'R-CLOCK-IN-REGION (ut_map/ut_set: the clock sample that drives the purge and the deadlines is taken while m_lock is held, so '
+                       'samples are ordered like the critical sections and the appended ttl list stays deadline-sorted under contention), '
                        'R-BIND-DOMINATED (an index insertion is dominated by a failed lookup of that key), R-CTOR-SHAPE. The step from these clauses to the '
                        'behavioural statement is the induction of DESIGN.md section 1 and is not machine-checked.')
     res.assumptions += ['capacity >= 1', 'representation invariant RI holds at entry (inductive hypothesis)']
-    res.floors = {'R-BALANCE': 100, 'R-BOUND': 60, 'R-OBSERVERS': 28, 'R-PURGE-FIRST': 20, 'R-FULL-TEST': 14}
+    res.floors = {'R-BALANCE': 100, 'R-BOUND': 60, 'R-OBSERVERS': 28, 'R-PURGE-FIRST': 20, 'R-CLOCK-IN-REGION': 20, 'R-FULL-TEST': 14}
     return res
 
 
